@@ -368,6 +368,11 @@ struct dispatch_queue_global_s _dispatch_root_queues[] = {
 	),
 };
 
+#if DISPATCH_VERIF
+// verification hook (see shims/atomic.h): optional event callback, NULL by default
+dispatch_verif_cb_t volatile _dispatch_verif_cb;
+#endif
+
 unsigned long volatile _dispatch_queue_serial_numbers =
 		DISPATCH_QUEUE_SERIAL_NUMBER_INIT;
 
